@@ -27,14 +27,14 @@ from ..pool import pmap
 META = {
     "level": "model_checking",
     "text": "TLC checks the cross-document link model (destination classification in the Sphinx renderer, resolution through the target document's slug table / docname_join / std labels, relative-URI arithmetic) against the declarative target of every link for every project within the bound; one Sphinx project per document subset is built with the html builder and every link's reference node, text and warnings are compared with the model; random larger projects are validated as traces by TLC.",
-    "note": "Bound: subsets of 5 documents (r.md, a.md, a/x.md, a/z.md, b/c/y.md; a.md sits next to the directory a/) x every source document x 8 spellings (x.md, ./x.md, /abs.md, no extension, <project:>, #label, extra file, <path:>) x anchors (none, k-th heading incl. a duplicated title, missing slug) x explicit/empty text. Warnings are those of the build's own resolution pass. Other Sphinx domains and intersphinx are out of scope.",
+    "note": "Bound: subsets of 5 documents (x.md, a.md, a/x.md, a/z.md, b/c/y.md; a.md sits next to the directory a/, x.md and a/x.md share a name) x every source document x 8 spellings (x.md, ./x.md, /abs.md, no extension, <project:>, #label, extra file, <path:>) x anchors (none, k-th heading incl. a duplicated title, missing slug) x explicit/empty text. Warnings are those of the build's own resolution pass. Other Sphinx domains and intersphinx are out of scope.",
     "technique": "TLA+ spec + TLC exhaustive check; spec-behaviour replay into the code (in-process Sphinx builds); TLC batch trace validation",
     "specs": ["XRef", "XRefTrace"],
 }
 
-UNIVERSE = [["r"], ["a"], ["a", "x"], ["a", "z"], ["b", "c", "y"]]
-HEADINGS = {"r": [], "a": ["One"], "a/x": ["Sec", "Sec"], "a/z": ["Sec"], "b/c/y": ["Other"]}
-SLUGS = {"r": [], "a": ["one"], "a/x": ["sec", "sec-1"], "a/z": ["sec"], "b/c/y": ["other"]}
+UNIVERSE = [["x"], ["a"], ["a", "x"], ["a", "z"], ["b", "c", "y"]]      # x.md and a/x.md share a name; a.md sits next to a/
+HEADINGS = {"x": [], "a": ["One"], "a/x": ["Sec", "Sec"], "a/z": ["Sec"], "b/c/y": ["Other"]}
+SLUGS = {"x": [], "a": ["one"], "a/x": ["sec", "sec-1"], "a/z": ["sec"], "b/c/y": ["other"]}
 LABELDOC = ["a", "x"]
 FILEDIR = ["a"]
 
@@ -368,7 +368,7 @@ def run(ctx):
     tlc.expect_holds(r, "XRef M |= S")
     ctx.add_tlc("XRef_mc", r, "31 projects x sources x links")
     rc = tlc.run("XRef", tlc.cfg(ctx, "x_cov.cfg", CONSTS, invariants=invs[:3]), wd=ctx.wd, coverage=True,
-                 defs=defs([["r"], ["a", "x"]], HEADINGS))
+                 defs=defs([["x"], ["a", "x"]], HEADINGS))
     for act in ("Classify", "Resolve"):
         if rc.coverage.get(act, (0, 0))[0] == 0:
             raise tlc.MachineryFailure(f"XRef: action {act} never taken (vacuous)")
